@@ -1392,9 +1392,11 @@ fn main() {
     let mut rng = Rng::new(seed);
     let cw = CaseWriter::new(
         &dir,
-        "From Coq Require Import ZArith List. Import ListNotations. Open Scope Z_scope.\nFrom FV Require Import Lib.Cases C05.Model.",
+        "From Coq Require Import ZArith List. Import ListNotations. Open Scope Z_scope.\nFrom FV Require Import Lib.Cases C05.Model C05.SortTotal.",
         "case_ty",
-        "check_case",
+        // check_case (model = implementation) && totality_hypsb (the hypotheses of c05_sort_shortest_total /
+        // c05_kahn_order_topological hold of the object map of the case): coq/C05/SortTotal.v
+        "check_case_t",
         if thorough { 200 } else { 80 },
     );
     let mut cx = Ctx { st: Stats::new(), cw, seen: HashSet::new() };
